@@ -8,7 +8,7 @@ git -C /repo worktree add -q --detach $wt HEAD || exit 3
 cd $wt && git apply "$d/patch.diff" || { echo "APPLY FAILED"; git -C /repo worktree remove --force $wt; exit 3; }
 export CARGO_TARGET_DIR=$wt/target
 cargo build --offline 2>&1 | tail -2; echo "build_rc=$?"
-cargo test --workspace --no-fail-fast --offline 2>&1 | grep -E "test result|FAILED|failed" ; 
+timeout 600 cargo test --workspace --no-fail-fast --offline 2>&1 | grep -E "test result|FAILED|failed" ; 
 sh "$d/demo.sh" $wt/target/debug/cicada > /dev/null 2>&1; echo "demo_with_change_rc=$?"
 git checkout -q -- . && cargo build --offline 2>&1 | tail -1
 sh "$d/demo.sh" $wt/target/debug/cicada > /dev/null 2>&1; echo "demo_without_change_rc=$?"
